@@ -772,6 +772,35 @@ def foreign_history_writes(ctx: Ctx, rule: str, why: str):
             if own and isinstance(tgt.value, ast.Name) and tgt.value.id == sn:
                 continue
             obs.append(ctx.ob(rule, f, x, status=_V, detail=f"{f.short} writes another object's history (`{norm(x)[:70]}`): {why}", construct=f"foreign-history-write:{f.short}"))
+    # a recorded generation edited in place through a local alias: `g = self._history[-1][-1]; g[i] = x` / `g.remove(x)`
+    for f in ctx.prog.all_functions():
+        if f.name == "<module>":
+            continue
+        alias = {}
+        for y in body_walk(f.node):
+            if isinstance(y, ast.Assign) and len(y.targets) == 1 and isinstance(y.targets[0], ast.Name):
+                v = y.value
+                root = v
+                while isinstance(root, ast.Subscript):
+                    root = root.value
+                if isinstance(v, ast.Subscript) and isinstance(root, ast.Attribute) and root.attr in ("_history", "history"):
+                    alias[y.targets[0].id] = y
+                elif isinstance(v, ast.Attribute) and v.attr in ("current_population",) :
+                    alias[y.targets[0].id] = y
+        if not alias:
+            continue
+        for x in body_walk(f.node):
+            tgt = None
+            if isinstance(x, ast.Call) and isinstance(x.func, ast.Attribute) and x.func.attr in MUT and isinstance(x.func.value, ast.Name):
+                tgt = x.func.value.id
+            elif isinstance(x, (ast.Assign, ast.AugAssign, ast.Delete)):
+                for t in (x.targets if isinstance(x, (ast.Assign, ast.Delete)) else [x.target]):
+                    if isinstance(t, ast.Subscript) and isinstance(t.value, ast.Name):
+                        tgt = t.value.id
+            if tgt in alias:
+                rebound = [y for y in body_walk(f.node) if isinstance(y, ast.Assign) and any(isinstance(t, ast.Name) and t.id == tgt for t in y.targets)]
+                if len(rebound) == 1:
+                    obs.append(ctx.ob(rule, f, x, status=_V, detail=f"{f.short} edits a recorded generation in place (`{norm(alias[tgt])[:50]}`; `{norm(x)[:60]}`): {why}", construct=f"history-edit:{f.short}"))
     if not obs:
         obs.append(ctx.ob(rule, None, None, subject="pyhms", loc="-", detail=f"every one of the {n} writes to a `_history` is made by the deme itself through `self`", construct="foreign-history-write"))
     return obs
